@@ -11,7 +11,7 @@ META = {
                    "rules (greedy replacement by fresh candidates / merge-sort-trim / sort-then-replace-the-tail as in cuckoo search) the reported best cost of "
                    "generation k+1 is never worse than that of generation k, for MIN and MAX, and best_solution is the "
                    "best agent ever recorded.",
-    "bounds": {"quick": "helpers: 2-3 incumbents + 2-3 candidates; optimize(): 2 agents, 2 cycles",
+    "bounds": {"quick": "helpers: 2-3 incumbents + 2-3 candidates (2+2 also with +-inf kinds for the first incumbent and candidate); optimize(): 2 agents, 2 cycles",
                "thorough": "helpers 3+3; optimize(): + (3 agents, 1 cycle), (1 agent, 3 cycles)"},
     "outside": "that each of the ~70 elitist update rules only replaces through these helpers (H6)",
     "stubs": ["pydantic-lite", "pool model", "np.random.seed no-op"],
@@ -30,12 +30,14 @@ def best_of(agents):
     return m
 
 
-def ob_helper(which, k, j, mode="serial"):
+def ob_helper(which, k, j, mode="serial", ext=False):
+    """ext: the first incumbent and the first candidate may also cost +inf / -inf (an objective unbounded at a
+    reachable point): -inf is the best possible internal cost and must survive like any other"""
     def f():
         layers = [stubs.pool_layer()] if mode != "serial" else []
         with env(*layers):
-            cur = [agent(("o", i), sym.real(f"o{i}")) for i in range(k)]
-            new = [agent(("n", i), sym.real(f"n{i}")) for i in range(j)]
+            cur = [agent(("o", i), (sym.ext_real if ext and i == 0 else sym.real)(f"o{i}")) for i in range(k)]
+            new = [agent(("n", i), (sym.ext_real if ext and i == 0 else sym.real)(f"n{i}")) for i in range(j)]
             opt = Scripted(config(population_size=k))
             opt._population = list(cur)
             opt._mode = ModeSolver(mode)
@@ -149,6 +151,7 @@ def obligations(tier):
     for which in ("greedy", "extend_trim", "replace_trim_merged", "sort_and_trim"):
         for k, j in ((2, 2), (3, 3)) if th else ((2, 2), (3, 2) if which != "greedy" else (3, 3)):
             obs.append(Ob(f"helper[{which},k={k},j={j}]", ob_helper(which, k, j), 600))
+        obs.append(Ob(f"helper_inf[{which},k=2,j=2]", ob_helper(which, 2, 2, ext=True), 600))
     for mode in ("thread", "process"):
         obs.append(Ob(f"helper[greedy,k=2,j=2,{mode}]", ob_helper("greedy", 2, 2, mode), 600))
     obs.append(Ob("greedy_nan_candidate", ob_greedy_nan(), 120))
